@@ -1,7 +1,7 @@
 #!/bin/bash
-# tools/verify_seed.sh Cxx [tier]  - confirm a sub-agent's seeded defect in its scratch worktree and run our check on it.
+# tools/verify_seed.sh Cxx [tier] [seed|seed2]  - confirm a sub-agent's seeded defect in its scratch worktree and run our check on it.
 # The worktree /tmp/wt_Cxx must be clean; the seed lives in /tmp/seed_Cxx (patch.diff, demo.py, meta.json).
-id=$1; tier=${2:-quick}; wt=/tmp/wt_$id; sd=/tmp/seed_$id
+id=$1; tier=${2:-quick}; round=${3:-seed}; wt=/tmp/wt_$id; sd=/tmp/${round}_$id
 set -u
 cd $wt || exit 9
 git checkout -q -- .
